@@ -45,9 +45,9 @@ def _configs(tier, rng_choice):
 
 
 def generate(rng, index, tier):
-    if index % 601 == 31:
+    if index % 301 == 31:
         n = worlds.dict_size(rng, 70000) or 3000
-        if (index // 601) % 2 == 0:
+        if (index // 301) % 2 == 0:
             # thread 700 announces a process, then a named count of other threads announce theirs, then 700's name arrives
             first = {'tid': 700, 'ops': [worlds.op_exec(rng, 77, 'child'), {'k': 'sys', 'name': 'BSC_getpid', 's': [0, 0, 0, 0], 'e': [0, 5, 0, 0], 'in': []}]}
             crowd = [{'tid': 100000 + i, 'ops': [{'k': 'one', 'name': 'TRACE_DATA_EXEC', 'q': 0, 'a': [200000 + i, 0, 0, 0]}]} for i in range(n)]
